@@ -19,9 +19,11 @@ rows (cfg, library outcome per candidate (channel, route), audit events, exit st
 class); spec/Trace_C19.tla steps the same machine through every row and evaluates the laws.
 """
 import ast
+import datetime
 import hashlib
 import io
 import json
+import math
 import os
 import random
 import re
@@ -72,6 +74,19 @@ def ref_load(fmt, text):
     raise ValueError('no such format %r' % fmt)
 
 
+_LOADED = {}
+
+
+def ref_load_cached(fmt, text):
+    """pool texts recur thousands of times; the loaded value is only read"""
+    key = (fmt, text)
+    if key not in _LOADED:
+        if len(_LOADED) > 20000:
+            _LOADED.clear()
+        _LOADED[key] = ref_load(fmt, text)
+    return _LOADED[key]
+
+
 def spec_of(route, text):
     if route == 'ident':
         return glom.T
@@ -106,6 +121,13 @@ def kind_of(outcome):
     if outcome[0] != 'ok':
         return 'na'
     r = outcome[1]
+    try:
+        json.dumps(r, sort_keys=True)
+    except (TypeError, ValueError):
+        # json.dumps(result) is not defined: bytes / date / time are scalars for --scalar, the rest is not
+        if isinstance(r, (bytes, datetime.date, datetime.time)):
+            return 'xscalar'
+        return 'xcoll'
     if isinstance(r, str):
         return 'str'
     if isinstance(r, bool):
@@ -113,7 +135,7 @@ def kind_of(outcome):
     if isinstance(r, int):
         return 'int'
     if isinstance(r, float):
-        return 'float'
+        return 'float' if math.isfinite(r) else 'other'      # inf / nan: 'Infinity' or 'inf'?
     if isinstance(r, (list, dict, tuple)):
         return 'coll'
     return 'other'
@@ -142,7 +164,9 @@ def toml_value(v):
     if isinstance(v, float):
         return repr(v)
     if isinstance(v, str):
-        return json.dumps(v)
+        return json.dumps(v, ensure_ascii=False).replace('\x7f', '\\u007f')
+    if isinstance(v, (datetime.date, datetime.time)):
+        return v.isoformat()
     if isinstance(v, list):
         return '[' + ', '.join(toml_value(x) for x in v) + ']'
     if isinstance(v, dict):
@@ -181,6 +205,24 @@ def renderings(fmt, t):
     return _REND[key]
 
 
+def same(a, b):
+    """equal and of the same types throughout (0 / False / 0.0 and [] / () are different values)"""
+    if type(a) is not type(b):
+        return False
+    if isinstance(a, dict):
+        return len(a) == len(b) and all(k in b and same(k, [x for x in b if x == k][0]) and same(v, b[k])
+                                        for k, v in a.items())
+    if isinstance(a, (list, tuple)):
+        return len(a) == len(b) and all(same(x, y) for x, y in zip(a, b))
+    if isinstance(a, float):
+        return a == b and math.copysign(1, a) == math.copysign(1, b)
+    return a == b
+
+
+DECOR = [' %s', '%s\n', '\n%s\n\n', '\t%s ', '\ufeff%s', '%s\r\n']     # blanks, newlines, a byte-order mark
+TEXT_TARGETS = {}        # (fmt, repr(value)) -> texts written by hand (values no renderer produces)
+
+
 def _renderings(fmt, t):
     """texts denoting t in format fmt (only those the reference loader maps back to t)"""
     out = []
@@ -191,15 +233,23 @@ def _renderings(fmt, t):
         elif fmt == 'python':
             out = [repr(t)]
         elif fmt == 'yaml':
+            if len(repr(t)) > 6000:
+                return []                      # PyYAML is a slow pure-Python parser: big values go elsewhere
             out = [_yaml.safe_dump(t), _yaml.safe_dump(t, default_flow_style=True), json.dumps(t), yaml_jsonish(t)]
         elif fmt == 'toml':
             out = [toml_dumps(t)]
     except Exception:
-        return []
+        out = []
+    out = list(TEXT_TARGETS.get((fmt, repr(t)), [])) + out
+    if fmt == 'yaml' and t is None:
+        out += ['  \n', '# only a comment\n', '~']
+    if fmt == 'toml' and isinstance(t, dict) and not t:
+        out += ['  \n', '# only a comment\n']
+    out += [d % x for x in out[:2] for d in DECOR]
     good = []
     for x in out:
         try:
-            if ref_load(fmt, x) == t and x:
+            if x and x not in good and same(ref_load(fmt, x), t):
                 good.append(x)
         except Exception:
             pass
@@ -207,6 +257,7 @@ def _renderings(fmt, t):
 
 
 _DEEP = '[' * 3000 + ']' * 3000          # nesting beyond any recursion limit
+_DEEPISH = '[' * 1500 + ']' * 1500       # the same for the pure-Python parsers (YAML, TOML)
 MALFORMED = {
     'json': ['{"a": 1', "{'a': 1}", '{"a": 1,}', '[1, 2', 'nope', '{"a": tru}', '{"a": 1} x', _DEEP],
     'python': ['{"a": 1', 'dict(a=1)', '[x for x in (1, 2)]', '{"a": true}', '1 +',
@@ -214,12 +265,20 @@ MALFORMED = {
                # these parse, but the value cannot be built (TypeError / RecursionError inside literal_eval)
                '{[1, 2]: 3}', '{"a": {{}}}', '{{1: 2}}', '{"k": [{(1, [2]): 3}]}', '[' + '-' * 3000 + '1]'],
     'yaml': ['{"a": {"b": "c"}', '[1, 2', 'a: b: c', '{{"a": {"b": "c"}}', 'a: [1\nb: 2', '"abc',
-             '{[1, 2]: 3}', 'd: 2001-13-45', 'x: !!binary "a"', _DEEP],
-    'toml': ['a = ', '{"a": 1}', 'a = 1\na = 2', '[a', 'a = [1, 2', 'just words', 'a = ' + _DEEP, 'd = 2001-13-45'],
+             '{[1, 2]: 3}', 'd: 2001-13-45', 'x: !!binary "a"', _DEEPISH],
+    'toml': ['a = ', '{"a": 1}', 'a = 1\na = 2', '[a', 'a = [1, 2', 'just words', 'a = ' + _DEEPISH, 'd = 2001-13-45'],
 }
 
 
 def check_malformed():
+    for fmt in MALFORMED:                      # blank / BOM-prefixed inputs, where the loader rejects them
+        good = {'json': '{"a": 1}', 'python': "{'a': 1}", 'yaml': 'a: 1', 'toml': 'a = 1'}[fmt]
+        for x in ['  \n', ' ', '\t', '\ufeff', '\ufeff' + good, '\ufeff\n' + good]:
+            try:
+                ref_load(fmt, x)
+            except Exception:
+                if x not in MALFORMED[fmt]:
+                    MALFORMED[fmt].append(x)
     for fmt, texts in MALFORMED.items():
         for x in texts:
             try:
@@ -245,6 +304,16 @@ TARGETS = {
     # strings that a JSON reader would take for numbers (exponent without a dot, NaN, Infinity)
     'y1': {"size": "1e3", "a": {"b": "1E5", "n": 5, "l": [{"x": "NaN", "y": "Infinity"}, {"x": "2e10", "y": "-Infinity"}]},
            "c": "-1e-3", "d": ["1e3", "NaN", "7e0"], "e": {"k2": "3e8", "k1": 1}, "f": 1.25},
+    # falsy values everywhere a value flows, and as the whole target
+    'z1': {"zero": 0, "empty": "", "elist": [], "edict": {}, "no": False, "nil": None, "fzero": 0.0,
+           "a": {"b": "", "n": 0, "l": []}, "c": "", "d": [0, "", [], {}, False, None], "e": {}},
+    'z0': 0, 'zs': "", 'zl': [], 'zd': {}, 'zf': False, 'zn': None, 'zt': True, 'zm': -5,
+    # non-ASCII, astral, separators, control characters, long strings, keys that need escaping
+    'u1': {"ключ": "значение", "with space": "sp ace", "quo\"te": "dq\"", "back\\slash": "b\\s", "new\nline": "l1\nl2",
+           "tab\t": "\t", "": "empty key", "emoji": "😀 ok", "ls": "a\u2028b", "del": "\x7f", "--scalar": "opt", "-": "dash",
+           "a": {"b": "é" * 3, "n": 7, "l": [{"x": "long", "y": "x" * 2000}]}, "c": "ü", "d": ["ß", "日本語"]},
+    'lg': {"a": {"b": "long " * 20000, "n": 1, "l": [{"x": 1, "y": "é" * 30000}]}, "c": "x" * 100000, "d": list(range(3000))},
+    'o1': "--scalar", 'o2': "-",
     's1': "just a string",
     'i1': 42,
     'f1': 2.5,
@@ -260,6 +329,13 @@ SPEC_VALUES = [
     # '*' / '**' wildcard segments (Path.from_text): select several values
     'a.l.*.y', 'a.l.*.x', 'd.*', 'e.*', '**.n', 'a.**.y', '*.b', 'a.l.*', '**.zz', 'a.l.*.zz', '*.a',
     'k', 't', 't.0', ('t',), {'kk': 'k', 'tt': 't'},
+    # falsy results of every kind; keys that need escaping; numbers at the int / float boundary;
+    # results json.dumps cannot serialise
+    '', 'zero', 'empty', 'elist', 'edict', 'no', 'nil', 'fzero', 'd.3', 'd.5', {'z': 'zero', 'e': 'empty', 'n': 'nil', 'f': 'no'},
+    ('a', 'l'), ('elist', ['x']), {'only': 'edict'},
+    'ключ', 'with space', 'emoji', 'ls', 'a.l.0.y', {'ключ': 'ключ', 'with space': 'with space', 'quo"te': 'emoji'},
+    'big', 'negz', 'huge', 'tiny', 'i64', 'fmax', {'b': 'big', 'h': 'huge', 'z': 'negz'},
+    's', 'by', 'dt', 'tm', 'dtm', {'when': 'dt'}, ('nest', ['dt']), 'nest',
     # dict specs with integer keys (numeric order differs from string order), unsorted insertion order
     {10: 'a.b', 9: 'c', 2: 'a.n'}, {'o': {100: 'c', 20: 'c', 3: 'd'}}, ('a', {10: 'b', 9: 'n'}), {10: 'zz', 9: 'c'},
     {33: 'a.l', 4: ('a', 'n')},
@@ -377,6 +453,28 @@ def class_id(attrs):
     return 'rec'
 
 
+def _text_target(name, texts):
+    """a target given as text in some formats; its value is what the reference loader makes of it"""
+    value = None
+    for fmt, text in texts.items():
+        v = ref_load(fmt, text)
+        if value is None:
+            value = v
+        if same(v, value):
+            TEXT_TARGETS.setdefault((fmt, repr(value)), []).append(text)
+    TARGETS[name] = value
+
+
+_NUMS = ('{"big": 1e400, "negbig": -1e400, "negz": -0.0, "huge": 123456789012345678901234567890, "tiny": 1e-400, '
+         '"i64": 9223372036854775808, "fmax": 1.7976931348623157e308, "a": {"b": "bee", "n": -0.0, "l": []}, "c": "see", "d": [1e400]}')
+_text_target('n1', {'json': _NUMS, 'python': _NUMS})
+_text_target('xp', {'python': '{"s": {1, 2}, "by": b"by\\x00tes", "nest": [{"dt": b"x"}], "a": {"b": "bee", "n": 3, "l": [{"x": {3}, "y": "p"}]}, '
+                              '"c": "see", "d": [1], "dt": b"", "tm": {()}}'})
+_text_target('xy', {'yaml': '{"dt": 2001-02-03, "dtm": 2001-02-03 04:05:06, "by": !!binary "YWJj", "s": !!set {1, 2}, '
+                            '"nest": [{"dt": 2020-01-01}], "a": {"b": "bee", "n": 3, "l": []}, "c": "see", "d": [1]}'})
+_text_target('xt', {'toml': 'dt = 2001-02-03\ntm = 07:32:00\ndtm = 2001-02-03T04:05:06Z\nc = "see"\nd = [1]\n'
+                            'nest = [{dt = 2020-01-01}]\n[a]\nb = "bee"\nn = 3\nl = []\n'})
+
 _POOLS = None
 
 
@@ -398,6 +496,7 @@ def pools():
             except TypeError:
                 pass
     cand += TEXPR + BBAD + BNAME
+    cand += [' ', ' a', 'a ', '\ta.b', '\ufeffa', '\ufeff"a.b"', '\ufeff{"x": "a"}', 'a\u2028b', 'with space', '😀']
     p = {}
     for text in cand:
         if not text or text.startswith('-'):
@@ -443,11 +542,25 @@ def adv_text(rng, cid, token, eager_only):
 _KIND = {}
 
 
+def _kind_column(tn):
+    tv = dict(TARGETS, emptymap={})
+    return {k: v for k, v in _kind_rows({tn: tv[tn]}).items()}
+
+
 def kind_table():
     """(target name | 'emptymap', route, text) -> result kind, for the non-adversarial pools"""
     if _KIND:
         return _KIND
-    tv = dict(TARGETS, emptymap={})
+    pools()
+    import multiprocessing as mp
+    with mp.get_context('fork').Pool(vlib.NCPU) as pool:
+        for col in pool.map(_kind_column, list(TARGETS) + ['emptymap'], chunksize=1):
+            _KIND.update(col)
+    return _KIND
+
+
+def _kind_rows(tv):
+    _KIND = {}
     for cid, texts in pools().items():
         attrs = CLASS_ATTRS[cid]
         for text in texts:
@@ -561,7 +674,26 @@ def run_subproc(case, d):
 RUNNERS = {'inproc': run_inproc, 'subproc': run_subproc}
 
 
+def _wipe(path):
+    try:
+        if os.path.islink(path) or not os.path.isdir(path):
+            os.unlink(path)
+        else:
+            shutil.rmtree(path, ignore_errors=True)
+    except OSError:
+        pass
+
+
 def run_case(case, mode, base):
+    if mode == 'inproc':
+        # one directory per worker, emptied after every run (directory churn is slow on a busy box)
+        d = os.path.join(base, 'inproc')
+        os.makedirs(d, exist_ok=True)
+        try:
+            return run_inproc(case, d)
+        finally:
+            for name in os.listdir(d):
+                _wipe(os.path.join(d, name))
     d = tempfile.mkdtemp(prefix='case_', dir=base)
     try:
         return RUNNERS[mode](case, d)
@@ -636,7 +768,7 @@ def concretize(st, rng):
         for tn, tv in TARGETS.items():
             rs = renderings(channel_fmt, tv)
             if chan == 'arg':
-                rs = [x for x in rs if not x.startswith('-')]
+                rs = [x for x in rs if x != '-' and len(x) < 60000]     # argv strings are limited to 128 KiB
             if rs:
                 names.append(tn)
         return names
@@ -694,7 +826,7 @@ def concretize(st, rng):
         used.add(tn)
         rs = renderings(channel_fmt, TARGETS[tn])
         if ch == 'arg':
-            rs = [x for x in rs if not x.startswith('-')]
+            rs = [x for x in rs if x != '-' and len(x) < 60000]     # argv strings are limited to 128 KiB
         texts[ch] = rng.choice(rs)
     # ---- argv ----------------------------------------------------------------------------
     flags = []
@@ -753,8 +885,29 @@ def concretize(st, rng):
 
 
 def break_argv(kind, flags, pos, rng):
-    """violate the documented command-line syntax in the given way"""
-    if kind == 'badindent':
+    """violate the documented command-line syntax in the given way (kind 'ok': only vary the surface:
+    --flag=value for --flag value, a trailing '--')"""
+    if kind == 'ok':
+        flags = [[f[0] + '=' + f[1]] if len(f) == 2 and rng.random() < 0.2 else f for f in flags]
+        if pos and rng.random() < 0.04:
+            pos = pos + ['--']                 # nothing follows the separator
+    elif kind == 'flagafter':                  # options after the positionals are positionals
+        pos = (pos or ['a']) + rng.choice([['--scalar', '--indent', '0'], ['--indent', '4'], ['--scalar', '--scalar']])
+        if len(pos) < 3:
+            pos.append('--target-format')
+    elif kind == 'dupflag':
+        two = [f for f in flags if len(f) == 2]
+        if two and rng.random() < 0.6:
+            f = rng.choice(two)
+            flags = flags + [[f[0], f[1]]]
+        elif ['--scalar'] in flags:
+            flags = flags + [['--scalar']]
+        else:
+            flags = [f for f in flags if f[0] != '--indent'] + [['--indent', '0'], ['--indent', '4']]
+        rng.shuffle(flags)
+    elif kind == 'dashdash':                   # '--' followed by positionals
+        pos = ['--'] + (pos or ['a'])
+    elif kind == 'badindent':
         flags = [f for f in flags if f[0] != '--indent'] + [['--indent', rng.choice(['x', 'two', '1.5'])]]
         rng.shuffle(flags)
     elif kind == 'toomany':
@@ -773,7 +926,7 @@ def eval_term(o, case, d_sub=None):
     if o['k'] == 'unspec':
         return ('any',)
     sub = (lambda x: x.replace(DIR, d_sub)) if d_sub else (lambda x: x)
-    tval = {} if o['sel'] == 'emptymap' else ref_load(o['fmt'], case['texts'][o['sel']])
+    tval = {} if o['sel'] == 'emptymap' else ref_load_cached(o['fmt'], case['texts'][o['sel']])
     oc = lib_outcome(tval, o['route'], sub(case['spec_text']))
     if oc[0] == 'glomerr':
         return ('err', oc[1]) if o['k'] == 'errmsg' else ('bad', 'library raises %s' % oc[1])
@@ -797,6 +950,19 @@ def out_matches(exp, obs):
     return False
 
 
+def ambiguous_events(case):
+    """(compile?, exec?) - audit events that cannot be attributed to the spec text: a target text equal to the
+    spec text is itself parsed (ast.literal_eval of a python target compiles it), and under --debug / --inspect
+    pdb reads standard input and runs its lines"""
+    spec = case['spec_text'].strip()
+    if not spec:
+        spec = case['spec_text']
+    same_text = lambda x: x == spec or x.strip() == spec or x.strip() == repr(case['spec_text'])
+    amb_c = any(same_text(x) for x in case['texts'].values())
+    amb_x = case['cfg']['r']['dbg'] != 'off' and any(same_text(line) for line in case['stdin'].splitlines() + [case['stdin']])
+    return amb_c or amb_x, amb_x
+
+
 def judge(st, case, obs):
     """compare one observed run with the specification: list of (level, why); level 'law' is a
     violation of the property, 'drift' a mismatch with the mechanism only, 'machinery' a broken check"""
@@ -806,6 +972,11 @@ def judge(st, case, obs):
     probs = []
     full = norm_s(cfg['s']['fmt']) == 'python-full'
     ev = obs['events']
+    amb_c, amb_x = ambiguous_events(case)
+    if amb_x:
+        ev = [e for e in ev if e != 'exec' or 'exec' in m['evs']]
+    if amb_c:
+        ev = [e for e in ev if e != 'compile' or 'compile' in m['evs']]
     if not full and ('exec' in ev or 'effect' in ev or obs['marker']):
         probs.append(('law', 'spec text executed outside python-full: events %s marker=%s' % (ev, obs['marker'])))
     if full and cfg['s']['txt']['adv'] and m['executed'] and not ('exec' in ev and 'effect' in ev and obs['marker']):
@@ -845,11 +1016,11 @@ def state_rng(st, seed):
 
 def signatures(st):
     """two coarse behaviour signatures: (spec action, spec-text class, final action) and
-    (whole action history, target format)"""
+    (last three actions, target format)"""
     m = st['m']
     h = m['hist']
     return ('A:%s|%s|%s' % (h[0], m['cfg']['s']['txt']['id'], h[-1]),
-            'B:' + '/'.join(h) + '|' + (m['cfg']['l']['fmt'] if 'l' in m['known'] else '-'))
+            'B:' + '/'.join(h[-3:]) + '|' + (m['cfg']['l']['fmt'] if 'l' in m['known'] else '-'))
 
 
 SUB_MOD = {'quick': 0, 'thorough': 48}    # thorough: every 48th state also as a child process
@@ -925,8 +1096,8 @@ def worker(states):
 # ---------------------------------------------------------------------------------------
 # code -> spec: random invocations recorded as rows
 # ---------------------------------------------------------------------------------------
-KEYS = ['a', 'b', 'c', 'd', 'e', 'k1', 'x', 'y', 'n']
-WORDS = ['1e3', 'NaN', '-Infinity', '2E5', '', 'sea', 'bee', 'x y', 'café', 'q"uote', "it's", '0', 'nine', 'two\nlines']
+KEYS = ['a', 'b', 'c', 'd', 'e', 'k1', 'x', 'y', 'n', 'with space', 'quo"te', 'ключ', '--scalar', 'ta\tb']
+WORDS = ['1e3', 'NaN', '-Infinity', '2E5', '', '', 'é😀', 'a\u2028b', 'x' * 5000, '\x7f', '--indent', '-', 'sea', 'bee', 'x y', 'café', 'q"uote', "it's", '0', 'nine', 'two\nlines']
 
 
 INT_KEYS = [2, 9, 10, 33, 100, 4, 20]
@@ -935,6 +1106,8 @@ INT_KEYS = [2, 9, 10, 33, 100, 4, 20]
 def rand_value(rng, depth, toml=False, py=False):
     """py: python-literal format only - integer-keyed dicts (never mixed with string keys) and tuples"""
     r = rng.random()
+    if depth > 0 and r < 0.06:
+        return rng.choice([{}, []])                 # empty containers as ordinary values
     if depth > 0 and r < 0.45:
         if py and rng.random() < 0.25:
             return {k: rand_value(rng, depth - 1, toml, py) for k in rng.sample(INT_KEYS, rng.randint(2, 4))}
@@ -946,9 +1119,9 @@ def rand_value(rng, depth, toml=False, py=False):
     if r < 0.4:
         return rng.choice(WORDS)
     if r < 0.7:
-        return rng.randint(-5, 99)
+        return rng.choice([0, 0, rng.randint(-5, 99), 2 ** 63, -2 ** 70, 10 ** 30])
     if r < 0.8:
-        return rng.choice([0.5, 2.25, -1.5])
+        return rng.choice([0.5, 2.25, -1.5, 0.0, -0.0, 1e22, 5e-324, 1.7976931348623157e308])
     if r < 0.9 or toml:
         return rng.choice([True, False])
     return None
@@ -1053,9 +1226,7 @@ def rand_case(rng):
             elif top < 0.9:
                 v = [rand_value(rng, 2, False, cf == 'python') for _ in range(rng.randint(1, 3))]
             else:
-                v = rand_value(rng, 0)
-                if v is None or isinstance(v, (bool, float)) or v == '' or (isinstance(v, int) and v < 0):
-                    continue
+                v = rand_value(rng, rng.choice([0, 0, 1]))      # any scalar, falsy ones included, or an empty container
             rs = renderings(cf, v)
             if rs:
                 return v, rs
@@ -1089,7 +1260,7 @@ def rand_case(rng):
         for _ in range(20):
             v, rs = (main_val, renderings(cf, main_val)) if first else fresh_target()
             if ch == 'arg':
-                rs = [x for x in rs if not x.startswith('-')]
+                rs = [x for x in rs if x != '-' and len(x) < 60000]     # argv strings are limited to 128 KiB
             if rs:
                 break
             first = False
@@ -1097,7 +1268,7 @@ def rand_case(rng):
             return None
         first = False
         texts[ch] = rng.choice(rs)
-    indent = rng.choice(['default', 'default', '0', '1', '2', '3', '4', '8'])
+    indent = rng.choice(['default', 'default', '0', '0', '1', '2', '3', '4', '8', '-1', '-3', '40', '+2'])
     scalar = 'on' if rng.random() < 0.3 else 'off'
     flags, files = [], {}
     if sfmt != 'default':
@@ -1113,7 +1284,7 @@ def rand_case(rng):
     if dbg != 'off':
         flags.append(['--' + dbg])
     r = rng.random()
-    argv = 'ok' if r < 0.96 else rng.choice(['badindent', 'toomany', 'unknownflag'])
+    argv = 'ok' if r < 0.94 else rng.choice(['badindent', 'toomany', 'unknownflag', 'flagafter', 'dupflag', 'dashdash'])
     s_ext, t_ext = rng.choice(EXTS), rng.choice(EXTS)
     sname, tname = 'spec' + s_ext, 'target' + t_ext
     eff_spec = spec_text if s_arg == 'text' else ''
@@ -1246,8 +1417,9 @@ def _record_one(job):
             row = make_row(conc, obs)
         finally:
             shutil.rmtree(d, ignore_errors=True)
-        if all(c['res'] != 'na' for c in row['lib']):
-            break        # the library itself neither returns nor raises a GlomError: outside C19
+        if all(c['res'] != 'na' for c in row['lib']) and not ambiguous_events(conc)[0]:
+            break        # (the library itself neither returns nor raises a GlomError: outside C19;
+            #              or an audit event could not be attributed to the spec text)
     return dict(row=row, case=case, mode=mode, obs=dict(obs, stdout=obs['stdout'][:400]), idx=idx, seed=seed)
 
 
@@ -1374,7 +1546,7 @@ def main(tier, seed):
     check.extra['action_coverage'] = actions
     if machinery:
         raise vlib.MachineryError('%d machinery problems, first: %s' % (len(machinery), machinery[0]['why']))
-    n_sub, n_in = {'quick': (200, 1800), 'thorough': (4000, 30000)}[tier]
+    n_sub, n_in = {'quick': (120, 1800), 'thorough': (4000, 30000)}[tier]
     nrec, rdrift, _ = record(check, n_sub, n_in, seed)
     drift += rdrift
     check.cov['evaluations'] += nrec
@@ -1413,6 +1585,10 @@ def main(tier, seed):
         'targets are JSON-representable (python / YAML targets may have integer keys, python targets tuples); --scalar is '
         'judged for str, int and float results, not for None / bool (observed: Python spelling True / None, not JSON); '
         'TOML targets are tables without null',
+        'a result json.dumps cannot serialise (set, bytes, date / time from python-literal, YAML or TOML targets) is not '
+        'judged (observed: the TypeError escapes as a traceback; bytes / dates print raw under --scalar); inf / nan under '
+        '--scalar are not judged; a negative --indent is json.dumps(indent=n) like any other; a repeated option and "--" '
+        'before the positionals are not judged (observed: usage errors); --flagfile (face built-in) is not modelled',
         'process status (1 for every failure class) and "usage errors and tracebacks on stderr, results and GlomError reports on '
         'stdout" are mechanism-level (DRIFT, not VIOLATION); message wording is never compared',
         'a usage error is observed as: face.UsageError raised by cli.main / non-zero exit status, "error:" on stderr, '
